@@ -226,13 +226,18 @@ class VirtualClock:
         meth = f.f_code.co_name
         caller = f.f_back.f_code.co_name if f.f_back is not None else ""
         late = self.T0 + (self.time_limit if self.time_limit is not None else 0.0) + 1.0
-        if hasattr(obj, "time_limit"):
+        if hasattr(type(obj), "reached_time_limit"):
             if meth == "elapsed" and caller == "remaining":
                 k = self.limit_reads
                 self.limit_reads += 1
                 if self.expire_at is not None and k >= self.expire_at:
                     self.expired_seen = True
-                self.reads.append(("limit", k))
+                who = ""
+                try:
+                    who = f.f_back.f_back.f_back.f_code.co_name
+                except AttributeError:
+                    pass
+                self.reads.append(("limit", k, who, current_trial()))
                 return late if self.expired_seen else self.T0
             self.reads.append(("limit_" + meth, caller))
             return late if (self.expired_seen and meth != "__init__") else self.T0
